@@ -590,6 +590,8 @@ def check_matrix_view(prog: Program, res: Result) -> None:
 
 
 def run(prog: Program, res: Result, tier: str) -> None:
+    from .. import memo
+    memo.report(prog, res)
     res.trusted += [
         "effect transfer functions of sa/absint.py; reader list = every "
         "method of the class hierarchy that is not in the frozen mutator list",
